@@ -77,6 +77,32 @@ DERIVS = {
     'slice[-2:]': (d_neg, lambda l: l[-2:]),
     'head[:2]': (lambda a: a[:2], lambda l: l[:2]),
 }
+DERIVS.update({
+    'take[-2,-1]': (lambda a: a.take([-2, -1]), lambda l: [l[-2], l[-1]]),
+    'take[-1,0,1]': (lambda a: a.take([-1, 0, 1]), lambda l: [l[-1], l[0], l[1]]),
+    'take[1,2,3]': (lambda a: a.take([1, 2, 3]), lambda l: [l[1], l[2], l[3]]),
+    'getitem[[-2,-1]]': (lambda a: a[[-2, -1]], lambda l: [l[-2], l[-1]]),
+    'getitem[[1,2]]': (lambda a: a[np.array([1, 2])], lambda l: [l[1], l[2]]),
+    'slice[::-2]': (lambda a: a[::-2], lambda l: l[::-2]),
+    'slice[3:0:-1]': (lambda a: a[3:0:-1], lambda l: l[3:0:-1]),
+    'slice[-3:-1]': (lambda a: a[-3:-1], lambda l: l[-3:-1]),
+    'iter': (lambda a: type(a)(list(a), dtype=a.dtype), lambda l: l),
+    # larger arrays: validity bitmaps longer than one byte, slices at byte-aligned and unaligned offsets
+    'big:slice[8:]': (lambda a: a[8:], lambda l: l[8:]),
+    'big:slice[3:][5:]': (lambda a: a[3:][5:], lambda l: l[3:][5:]),
+    'big:slice[-10:]': (lambda a: a[-10:], lambda l: l[-10:]),
+    'big:slice[16:]': (lambda a: a[16:], lambda l: l[16:]),
+    'big:slice[7:15]': (lambda a: a[7:15], lambda l: l[7:15]),
+    'big:pickle(slice[8:])': (lambda a: pickle.loads(pickle.dumps(a[8:])), lambda l: l[8:]),
+    'big:take(8..12)': (lambda a: a.take([8, 9, 10, 11, 12]), lambda l: l[8:13]),
+})
+BIG = {
+    'point': ['P', None, 'P', 'P', 'P', 'P', 'P', 'P', None, None, 'P', 'P', 'P', None, 'P', 'P', 'P', 'P'],
+    'multipoint': [1, None, 1, 0, 1, 1, 1, 1, None, None, 2, 1, 1, None, 1, 1, 0, 1],
+    'line': [2, None, 1, 0, 2, 1, 1, 2, None, None, 2, 1, 1, None, 2, 1, 0, 2],
+    'polygon': [[3], None, [3], [], [3], [3], [3], [3], None, None, [3], [3], [3], None, [3], [3], [], [3]],
+}
+BIG_DERIVS = [k for k in DERIVS if k.startswith('big:')]
 QUICK_DERIVS = ['identity', 'slice[1:]', 'slice[1:3]', 'head[:2]', 'take[2,0,-1]', 'take_fill[0,NA,2]', 'concat[2:]+[:2]', 'pickle(slice)[1:]', 'reverse[::-1]', 'empty[:0]']
 
 
@@ -204,7 +230,7 @@ def array_task(kind, deriv, dtype='float64', quantities=('isna', 'bounds', 'tota
     t0 = time.time()
     values.set_mul_mode('uf')
     ts = T.TagSpace(sort='int', flags=flags)
-    specs = base if base is not None else BASE[kind]
+    specs = base if base is not None else (BIG[kind] if deriv.startswith('big:') else BASE[kind])
     src, src_syms = T.build_array(ts, kind, specs, dtype)
     src_tags_before = [T.element_tags(kind, src[i]) for i in range(len(src))]
     fa, fl = DERIVS[deriv]
